@@ -265,13 +265,22 @@ Proof.
   rewrite code_valid_split, clip_code_eq_spec. reflexivity.
 Qed.
 
-(** An operation code above the table makes IsValid panic unless an earlier
-    clipping violation already returned false. *)
-Lemma isvalid_unknown_first_panics w tl len :
-  11 <= spec_op_code w -> exists k, cigar_isvalid (w :: tl) len = Panic k.
+(** ** No CIGAR is outside the theorems any more: every list of uint32 words
+    decodes, so End, Len, Lengths and IsValid return the specified values
+    (and never panic) for every record whatsoever. *)
+Lemma record_arith_total_gen flags pos c seqlen :
+  exists sc, spec_decode c = Some sc /\
+    record_end flags pos c = Ok (spec_end flags pos sc) /\
+    record_len flags pos c = Ok (spec_len flags pos sc) /\
+    cigar_lengths c = Ok (spec_reflen sc, spec_querylen sc) /\
+    cigar_isvalid c seqlen = Ok (spec_valid sc seqlen) /\
+    (-1 <= pos < 2 ^ 31 -> record_bin flags pos c = Ok (spec_bin flags pos sc)).
 Proof.
-  intros Hk. unfold cigar_isvalid. cbn [isvalid_loop]. rewrite type_is_mod. cbn [obind].
-  change (0 =? 0) with true. cbn [negb andb].
-  rewrite !andb_false_r. cbn [obind].
-  rewrite consumes_unknown by assumption. exists 1. reflexivity.
+  destruct (decode_total c) as [sc H]. exists sc.
+  split; [assumption|].
+  split; [apply record_end_spec; assumption|].
+  split; [apply record_len_spec; assumption|].
+  split; [apply lengths_is_spec_gen; assumption|].
+  split; [apply isvalid_is_spec_gen; assumption|].
+  intros Hp. apply record_bin_spec; assumption.
 Qed.
